@@ -1,6 +1,8 @@
 import PyYetiVerif.Model.Op2
 import PyYetiVerif.Model.Op2Read
 import PyYetiVerif.Model.Op4VariantsRead
+import PyYetiVerif.Model.Op4VariantsAscii
+import PyYetiVerif.Model.Op2ReadForms
 /-! Line protocol for C11 (numbers decimal, byte strings hex).
 
   encv <l|b> <bit64> <single> <n> vmat…        → hex bytes of an OUTPUT4 binary variant file
@@ -29,6 +31,12 @@ import PyYetiVerif.Model.Op4VariantsRead
        data (dense)  = per column `<nnz> <idx>:<bits> …` over the stored reals (2 per complex element) | huge | put-error:<class>
        data (sparse) = `<r> <c> <bits> [<bits>]` per element, file order | put-error:<class>
      item (dir)  = <namehex>,<abs rows>,<cols>,<form>,<mtype>
+  rda <names|-> <hex>   → `op4.load(file, namelist, into='list')` on an ASCII file by the name-list loop of
+     Model/Op4VariantsAscii.lean: `err` | `ok item|item|…`, item = <namehex>,<rows>,<cols>,<form>,<mtype>,<nputs>,<nvalues>
+  rec2 <l|b> <bit64> <cut> <form i|u|s|d|b> <N> <hex>   → `rdop2record(form, N)` of Model/Op2ReadForms.lean on the bytes
+     (positioned at a record): `err <class>` | `none <consumed>` | `ok <consumed> <n> item…` (bit patterns / bytes)
+  mats2 <which int|all> <names|-> <hex>   → `rdop2mats(names, which)` on a whole OUTPUT2 file:
+     `err <class>` | `ok <n> { <namehex> <k> { M … } }`
 -/
 open PyYetiVerif.Op4 PyYetiVerif.Op4V PyYetiVerif.Op2 PyYetiVerif.Op2R
 
@@ -305,6 +313,43 @@ def rd4 (cut : Int) (mode : Char) (pl : List (List Nat)) (f : List Nat) : String
     | '*' => " ;; ".intercalate [one 'd', one 's', one 'a', dr]
     | m => one m
 
+/-! ### the ASCII name-list loop, `rdop2record(form, N)`, `rdop2mats(names, which)` -/
+
+def rda (pl : List (List Nat)) (f : List Nat) : String :=
+  match PyYetiVerif.Op4VA.loadAsciiNamed pl (f.map Char.ofNat) with
+  | none => "err"
+  | some l => "ok " ++ "|".intercalate (l.map fun (n, d) =>
+      s!"{toHex n},{d.rows},{d.cols},{d.form},{d.mtype},{d.puts.length},{(d.puts.map fun p => p.2.2.length).sum}")
+
+def formOf (t : String) : Option PyYetiVerif.Op2RF.Form :=
+  match t with
+  | "i" => some .int
+  | "u" => some .uint
+  | "s" => some .single
+  | "d" => some .double
+  | "b" => some .bytes
+  | _ => none
+
+def rec2 (v : V2) (cut : Int) (fm : PyYetiVerif.Op2RF.Form) (N : Nat) (f : List Nat) : String :=
+  match PyYetiVerif.Op2RF.rdRecordF v cut fm N f with
+  | .error e => "err " ++ errName e
+  | .ok (none, s) => s!"none {f.length - s.length}"
+  | .ok (some xs, s) => s!"ok {f.length - s.length} {xs.length} " ++ " ".intercalate (xs.map toString)
+
+def mats2 (w : PyYetiVerif.Op2RF.Which) (names : Option (List (List Nat))) (f : List Nat) : String :=
+  match openOp2 f with
+  | .error e => "err " ++ errName e
+  | .ok o =>
+    match PyYetiVerif.Op2RF.rdMatsSel o.v f o.dir names w with
+    | .error e => "err " ++ errName e
+    | .ok l => Id.run do
+      let mut a : Array String := #["ok", toString l.length]
+      for (n, ms) in l do
+        a := (a.push (hexOrDash n)).push (toString ms.length)
+        for m in ms do
+          a := matToks m a
+      return " ".intercalate a.toList
+
 def namesTok (t : String) : Option (List (List Nat)) :=
   if t == "-" then some [] else (t.splitOn ",").mapM fun x => unhex x.toList
 
@@ -349,6 +394,20 @@ def answer (line : String) : String :=
     match cut.toInt?, mode.toList, namesTok names, unhexFast hx with
     | some cut, [m], some pl, some f => rd4 cut m pl f
     | _, _, _, _ => "bad-op"
+  | ["rda", names, hx] =>
+    match namesTok names, unhexFast hx with
+    | some pl, some f => rda pl f
+    | _, _ => "bad-op"
+  | ["rec2", e, b64, cut, fm, n, hx] =>
+    match (if e == "l" then some Endian.little else if e == "b" then some Endian.big else none), cut.toInt?, formOf fm,
+        n.toNat?, unhexFast hx with
+    | some e, some cut, some fm, some n, some f => rec2 ⟨e, b64 == "1"⟩ cut fm n f
+    | _, _, _, _, _ => "bad-op"
+  | ["mats2", w, names, hx] =>
+    match (if w == "all" then some PyYetiVerif.Op2RF.Which.all else w.toInt?.map PyYetiVerif.Op2RF.Which.idx),
+        namesTok names, unhexFast hx with
+    | some w, some pl, some f => mats2 w (if names == "-" then none else some pl) f
+    | _, _, _ => "bad-op"
   | ["rd4", cut, mode, names] =>
     match cut.toInt?, mode.toList, namesTok names with
     | some cut, [m], some pl => rd4 cut m pl []
